@@ -48,9 +48,9 @@ prop("C15",
                    "kernel assumptions: mapping is page granular; process_vm_readv of one iovec inside one page is all-or-EFAULT; PTRACE_PEEKDATA reads aligned words",
                    "Go-lite interpretation of the regenerated clen/hasNull/handleTrap/ptraceHandle.handle (Gen.C15, Gen.C09)"],
      assumptions=["event order of ptrace stops is a model parameter (partial for the race part): the theorem covers every single event with every ptrace request answering ESRCH; the real race is sampled",
-                  "exactness (C15_getstring_exact) is stated for C strings that lie entirely in readable memory below PATH_MAX; for strings that run into an unreadable page the returned prefix is proved to be a NUL-free prefix of the tracee's bytes (content), its maximal length there is covered by the differential"],
+                  "exactness is stated for strings shorter than PATH_MAX: a C string lying in readable memory is returned exactly (C15_getstring_exact), one that runs into an unreadable page is returned up to exactly the first unreadable byte (C15_getstring_fault_prefix); word granularity of PTRACE_PEEKDATA is abstracted to page granularity (the real reader's behaviour at a fault is compared by the differential)"],
      not_covered="Go runtime faults outside the modelled functions are covered only by the hostile real runs; tracerHandler.Handle's decode path is C02's",
-     level_text="Theorems for every address space and every pointer: GetString never panics, returns at most PATH_MAX NUL-free bytes that are a prefix of the tracee's bytes at that address, and returns a C string lying in readable memory exactly (all of it, wherever the page boundaries fall); kernel-evaluated theorems on the regenerated tracer code that a tracee vanishing under any ptrace request (ESRCH) yields no verdict (never Runner Error / Disallowed Syscall) while a live set-regs failure still fails closed; differential on real memory and hostile real tracees (incl. programs whose main process ends while other processes of the program still run: Run must return within the watchdog; vfork parents; names leading into symlink cycles)",
+     level_text="Theorems for every address space and every pointer: GetString never panics, returns at most PATH_MAX NUL-free bytes that are a prefix of the tracee's bytes at that address, returns a C string lying in readable memory exactly (all of it, wherever the page boundaries fall) and a string running into an unreadable page up to exactly the first unreadable byte; kernel-evaluated theorems on the regenerated tracer code that a tracee vanishing under any ptrace request (ESRCH) yields no verdict (never Runner Error / Disallowed Syscall) while a live set-regs failure still fails closed; differential on real memory and hostile real tracees (incl. programs whose main process ends while other processes of the program still run: Run must return within the watchdog; vfork parents; names leading into symlink cycles)",
      level_note="Trusted: Lean kernel; hand model of the string reader (differentially tied); kernel memory/ptrace assumptions; translator + Go-lite interpreter. Partial for real ptrace races (sampled)",
      technique="Lean 4 proofs (induction over the chunked read loop) + decide +kernel on regenerated Go-lite code + differential + hostile real runs")
 
